@@ -255,6 +255,11 @@ func c14Run(c *Ctx) {
 		c14Arbitrary(c, d)
 		return
 	}
+	if c.K%9 == 5 {
+		// entries that name options registered through the public AddOption API
+		apiIniCase(c, d)
+		return
+	}
 	base := c14BaseFile(r, d)
 	var plain []string
 	for _, l := range base {
